@@ -6,7 +6,7 @@ use idlc_mir::Node;
 use idlc_codegen::MINKIDL_HEADER_COMMENT;
 
 use crate::{
-    globals::{emit_const, emit_include, emit_struct_once, local_structs},
+    globals::{emit_const, emit_include, emit_struct_once, emit_structs_used_by, local_structs},
     interface::{emit_interface_impl, emit_interface_invoke},
 };
 
@@ -50,6 +50,7 @@ impl idlc_codegen::SplitInvokeGenerator for Generator {
                     emit_struct_once(s.as_ref(), &local, &mut emitted, &mut result);
                 }
                 Node::Interface(i) => {
+                    emit_structs_used_by(i, &local, &mut emitted, &mut result);
                     result.push_str(&emit_interface_impl(i, self.is_no_typed_objects));
                 }
             }
